@@ -11,7 +11,7 @@ from props._hist import History, Fail, result_fail, std_replay
 PROP = "C15"
 LEVEL = "other"
 SELFTEST_PARTS = ("num",)
-WALL_BUDGET = {"quick": 900, "thorough": 5400}
+WALL_BUDGET = {"quick": 1200, "thorough": 9000}
 HOOKS = ("updated", "storage_commit", "forget", "forget_oid", "finished", "split", "mark_changed", "update")
 OPS = ["create_b", "write_a", "delete_a", "rename_a_b", "mkdir_d", "rmdir_d", "move_a_d", "rendir_d_e", "mkdir_d_s", "create_d_a"]
 API = ["forget", "walk", "busy", "change_count", "nothing"]
@@ -86,7 +86,7 @@ def _engine_factory(params, env=None):
         mon.attach(lab)
         h = History(lab, e)
         # error paths are paths too: one engine-issued provider write fails with a temporary error at a solver-chosen index (0 = none)
-        fail_at = e.choose("fail_write", 4)
+        fail_at = e.choose("fail_write", params.get("nfail", 4))
         nwrites = [0]
         import cloudsync.exceptions as ex
         for sd, p in enumerate(lab.p):
@@ -262,9 +262,13 @@ def jobs(tier):
     for f in (("oid", "path") if q else ("oid", "path", "mixed")):
         for side in (0, 1):
             for op in OPS:
-                out.append({"harness": "engine", "params": {"flavour": f, "nops": 1 if q else 2, "slots": 2 if q else 1, "first": [side, op]},
-                            "label": "engine/%s/first=%d:%s" % (f, side, op)})
-        out.append({"harness": "smart", "params": {"flavour": f, "ncalls": 3 if q else 4}, "label": "smart-api/%s/%d-calls" % (f, 3 if q else 4)})
+                out.append({"harness": "engine", "params": {"flavour": f, "nops": 1, "slots": 2, "first": [side, op]}, "label": "engine/%s/1op/2slots/first=%d:%s" % (f, side, op)})
+                if not q and f == "oid":
+                    # two operations, an application call after each, the injected write failure at index 0 (none) or 1
+                    out.append({"harness": "engine", "params": {"flavour": f, "nops": 2, "slots": 1, "nfail": 2, "first": [side, op]}, "label": "engine/%s/2ops/1slot/first=%d:%s" % (f, side, op)})
+        out.append({"harness": "smart", "params": {"flavour": f, "ncalls": 3}, "label": "smart-api/%s/3-calls" % f})
+        if not q:
+            out.append({"harness": "smart", "params": {"flavour": f, "ncalls": 4}, "label": "smart-api/%s/4-calls" % f})
     out.append({"harness": "engine~event-no-lock", "params": {"flavour": "oid", "nops": 1, "slots": 1, "first": [0, "create_b"]}, "label": "engine~event-no-lock", "role": "sens"})
     return out
 
@@ -276,7 +280,7 @@ def meta(tier):
                        "busy/change_count, and the SmartCloudSync request/un-request/delete/listing/info calls - are explored over solver-enumerated histories, schedules and call sequences. "
                        "Whether the lock is held at a mutation depends only on the path of the thread performing it, so exhausting each entry point's paths within the bound decides 'every "
                        "mutation happens under the lock' within the bound.",
-        "bounds": {"engine": "1 (2) operations, 2 (1) slots, one application call after each operation", "smart api": "3 (4) calls from 10 kinds"},
+        "bounds": {"engine": "1 operation x 2 slots (thorough: + 2 operations x 1 slot on object ids with the injected failure at write 0/1), one application call after each operation", "smart api": "3 (4) calls from 10 kinds"},
         "symbolic": ["operations, schedule slots, application calls"],
         "outside": ["'any threaded execution reaches C01-C04': real OS threads cannot run under a single-thread symbolic executor - NOT claimed", "reads of the shared state without the lock",
                     "locks other than state.lock (provider locks, storage mutex)"],
